@@ -98,6 +98,7 @@ func main() {
 			cases = append(cases, names.HandWrittenOverStaleC11()...)
 			cases = append(cases, names.TagsC11(r)...)
 			cases = append(cases, names.IfaceC11(r)...)
+			cases = append(cases, names.UntypedC11(r)...)
 			cases = append(cases, names.TwoPackagesC11()...)
 		case "C12":
 			n, m := 30, 300
